@@ -9,6 +9,7 @@ names = [a for a in sys.argv[1:] if not a.startswith("--")] or sorted(os.listdir
 names = [n for n in names if os.path.isfile("%s/benign/%s/patch.diff" % (ROOT, n))]
 man = json.load(open(ROOT + "/MANIFEST.json"))
 ids = [c["property_id"] for c in man["checks"]]
+if os.environ.get("BENIGN_IDS"): ids = [i for i in ids if i in os.environ["BENIGN_IDS"].split(",")]      # subset of checks (after a change to some of them)
 path = ROOT + "/benign/MATRIX.json"
 mat = json.load(open(path)) if os.path.exists(path) else {}
 def one(job):
